@@ -70,7 +70,7 @@ SPEC = dict(
     runs=dict(
         quick=[
             _cm("cm-le2leaves-8tok-k3", "--maxleaves", 2, "--k", 3, "--alpha", 8),
-            _cm("cm-le2leaves-elem-k4", "--specials", 0, "--maxleaves", 2, "--k", 4, "--alpha", 4),
+            _cm("cm-le2leaves-elem-k4", "--specials", 0, "--maxleaves", 2, "--k", 4, "--alpha", 4, "--cfgmask", "0x99"),
             _cm("cm-3leaves-abc-k4", "--specials", 0, "--minleaves", 3, "--maxleaves", 3, "--wrap", 0, "--k", 4, "--alpha", 3, "--cfgmask", "0x21",
                 "--cfgrotate", 1),
             dict(name="cmx-k2", driver=D, args=["--space", "cmx", "--k", 2]),
